@@ -16,6 +16,7 @@ fn in_child(obls: &[&str], f: fn()) {
     unsafe {
         let pid = libc::fork();
         if pid == 0 {
+            libc::alarm(30); // a wedged instance (dead-locked table) is an outcome too
             f();
             std::io::stdout().flush().unwrap();
             libc::_exit(0);
